@@ -18,8 +18,9 @@ where
 {
     fn write_xml(&self, writer: &mut W) -> WriterResult<()> {
         for (operation_name, operation) in &self.operations {
-            // the name is schema text: as an escaped literal in a line comment it cannot end the comment
-            writeln!(writer, "\n// operation {operation_name:?}\n")?;
+            // the name is schema text: it must not close (or nest) the comment it is written into
+            let comment = operation_name.replace("*/", "* /").replace("/*", "/ *");
+            writeln!(writer, "\n/* {comment} */\n")?;
 
             // input
             let operation_name = to_pascal_case(operation_name);
